@@ -815,7 +815,19 @@ def replay_c11(d, case):
             except Exception:
                 pass
         try:
-            Chef(plotfile=os.path.join(d, 'plt'), recipe=case['recipe'], outfile=out, serial=case['serial'], kept_fields=kept, **kw).cook()
+            if case.get('cli'):
+                import sys
+                from amr_kitchen.chef import cli as ccli
+                old_argv = sys.argv
+                sys.argv = list(case['cli'])
+                try:
+                    ccli.main()
+                finally:
+                    sys.argv = old_argv
+            else:
+                Chef(plotfile=os.path.join(d, 'plt'), recipe=case['recipe'], outfile=out, serial=case['serial'], kept_fields=kept, **kw).cook()
+        except SystemExit as e:
+            return True, 'exited with %r' % (e.code,)
         except Exception as e:
             return True, 'raised %s: %s' % (type(e).__name__, e)
     try:
